@@ -27,6 +27,13 @@ def run(ctx):
     # every basis blade: E ^ hodge(E) = pss, duals of blades, and all blade pairs for the regressive product
     groups += blade_pair_plan(ctx, ['wedge_hodge', 'hodge', 'unhodge', 'dual', 'polarity'], dims=(3, 4, 5, 6))
     groups += blade_pair_plan(ctx, ['rp'], dims=(3, 4, 5, 6))
+    # the same maps spelled dual(kind='hodge' | 'polarity') / undual(kind=...) (params = [1] selects that spelling)
+    import patterns as P0
+    from plans import config_list as _cl
+    for d in (2, 3, 4):
+        for u in _cl(ctx, d, 2 if q else 6, 1):
+            cases = [(op, [list(P0.random_key_tuple(ctx.rng, d, 4, 1))], [1]) for op in ('hodge', 'unhodge', 'polarity', 'unpolarity') for _ in range(2 if q else 8)]
+            groups.append({'u': u, 'opts': {}, 'cases': cases, 'revisit': 0})
     # the dual and the undual of ONE key pattern on ONE algebra with a wrapper set (generated functions are then called by
     # name through numspace), every case visited again after the others were generated: a dual must not be replaced by
     # its undual (they differ for odd grades in even d / where pss^2 = -1)
